@@ -6,6 +6,7 @@ import (
 	"fmt"
 	"os"
 	"path/filepath"
+	"regexp"
 	"sort"
 	"strconv"
 	"strings"
@@ -106,6 +107,7 @@ func cmdCheck(args []string) int {
 	writeBaseline := fs.Bool("write-baseline", false, "record discharged obligation IDs as the baseline ledger")
 	noEvidence := fs.Bool("no-evidence", false, "do not write evidence (scratch runs)")
 	verbose := fs.Bool("v", false, "verbose")
+	writeShape := fs.Bool("write-shape", false, "record the IDs of all obligations generated on this tree (claimed or not) next to the ledger and stop before solving")
 	strict := fs.Bool("strict", false, "treat every generated obligation as claimed (ignore the ledger)")
 	noBounded := fs.Bool("no-bounded", false, "skip the bounded stand-ins (ledger maintenance runs)")
 	fs.Parse(args)
@@ -130,6 +132,7 @@ func cmdCheck(args []string) int {
 		allSolvers = true
 	}
 	t0 := time.Now()
+	pinnedLocals = loadPinnedLocals(*verif)
 	pats := scanContractPackages(*repo, *prop)
 	idx := loadRcIndex(*verif)
 	if len(pats) == 0 && len(idx.Props[*prop]) > 0 {
@@ -211,6 +214,32 @@ func cmdCheck(args []string) int {
 		}
 	}
 	genS := time.Since(t0).Seconds() - loadS
+	if *writeShape {
+		var ids []string
+		for _, fr := range results {
+			for _, o := range fr.Obls {
+				if !o.Negate && (len(o.Props) == 0 || hasProp(o.Props, *prop)) {
+					ids = append(ids, o.ID)
+				}
+			}
+		}
+		sort.Strings(ids)
+		data, _ := json.MarshalIndent(ids, "", " ")
+		f := filepath.Join(*verif, "baseline", *prop+".shape.json")
+		os.WriteFile(f, data, 0o644)
+		fmt.Printf("shape: %d obligation IDs written to %s\n", len(ids), f)
+		locals := map[string][]LocalDecl{}
+		for _, j := range jobs {
+			if fn := w.funcs[j.key]; fn != nil {
+				if l := w.localsOf(fn); len(l) > 0 {
+					locals[w.funcKey(fn)] = l
+				}
+			}
+		}
+		data, _ = json.MarshalIndent(locals, "", " ")
+		os.WriteFile(filepath.Join(*verif, "baseline", *prop+".locals.json"), data, 0o644)
+		return 0
+	}
 	var wg sync.WaitGroup
 	sem := make(chan struct{}, 14)
 	for _, fr := range results {
@@ -270,6 +299,32 @@ func cmdCheck(args []string) int {
 		sort.Strings(baseline)
 	}
 
+	// The ledger names obligations by site ordinal (post#2@ret3, nopanic/index#5).  A
+	// harmless edit that adds or removes a return or an index expression renumbers the
+	// sites, so exact names are only trusted for a clause whose number of sites is what
+	// it was on the pinned tree (shape file).  For a clause whose site count changed the
+	// rule is by count: no more sites may fail than were unclaimed on the pinned tree.
+	var shape []string
+	if data, err := os.ReadFile(filepath.Join(*verif, "baseline", *prop+".shape.json")); err == nil {
+		json.Unmarshal(data, &shape)
+	}
+	haveShape := len(shape) > 0 && len(baseline) > 0 && !*strict
+	baseCount, baseUnclaimed, nowCount := map[string]int{}, map[string]int{}, map[string]int{}
+	for _, id := range shape {
+		k := clauseKey(id)
+		baseCount[k]++
+		if !inList(baseline, id) {
+			baseUnclaimed[k]++
+		}
+	}
+	for _, co := range all {
+		if !co.o.Negate {
+			nowCount[clauseKey(co.o.ID)]++
+		}
+	}
+	shapeChanged := func(k string) bool { return haveShape && nowCount[k] != baseCount[k] }
+	pending := map[string][]checkedObl{}
+
 	nObl, nDis := 0, 0
 	perFunc := map[string]*FuncEvidence{}
 	for _, fr := range results {
@@ -304,6 +359,35 @@ func cmdCheck(args []string) int {
 					break
 				}
 			}
+		}
+	}
+	notClaimed := func(co checkedObl) {
+		o, fe := co.o, perFunc[co.key]
+		unclaimed = append(unclaimed, map[string]interface{}{"obligation": o.ID, "clause": o.Text, "at": o.PosStr, "verdict": co.r.Verdict})
+		nObl--
+		fe.Obligations--
+		fe.Unclaimed++
+	}
+	violation := func(co checkedObl, note string) {
+		o, r := co.o, co.r
+		info := map[string]interface{}{"obligation": o.ID, "kind": o.Kind, "clause": o.Text, "at": o.PosStr, "function": co.key,
+			"verdict": r.Verdict, "solver": r.Solver, "attempts": r.Attempts, "smt_file": r.File, "solver_output": truncate(r.Output, 4000)}
+		if note != "" {
+			info["note"] = note
+		}
+		suffix := " no-failing-input-found"
+		if r.Verdict == "sat" {
+			if rep := replayModel(w, co.fr, o, r, *verif, *prop, *repo); rep != nil {
+				info["replay"] = rep
+				if rep.Confirmed {
+					suffix = ""
+				}
+			}
+		}
+		rp := writeReplay(*verif, *prop, o.ID, info)
+		violations = append(violations, fmt.Sprintf("VIOLATION property=%s replay=%s%s", *prop, rp, suffix))
+		if *verbose {
+			fmt.Printf("  %-8s %s [%s] %s\n", r.Verdict, o.ID, o.PosStr, o.Text)
 		}
 	}
 	for _, co := range all {
@@ -362,30 +446,29 @@ func cmdCheck(args []string) int {
 			fe.Unclaimed++
 			continue
 		}
-		if len(baseline) > 0 && !inList(baseline, o.ID) && !*strict {
-			// stated but not part of the claim (never discharged robustly on the pinned tree)
-			unclaimed = append(unclaimed, map[string]interface{}{"obligation": o.ID, "clause": o.Text, "at": o.PosStr, "verdict": r.Verdict})
-			nObl--
-			fe.Obligations--
-			fe.Unclaimed++
+		if k := clauseKey(o.ID); shapeChanged(k) {
+			pending[k] = append(pending[k], co) // decided by count below
 			continue
 		}
-		// violation
-		info := map[string]interface{}{"obligation": o.ID, "kind": o.Kind, "clause": o.Text, "at": o.PosStr, "function": co.key,
-			"verdict": r.Verdict, "solver": r.Solver, "attempts": r.Attempts, "smt_file": r.File, "solver_output": truncate(r.Output, 4000)}
-		suffix := " no-failing-input-found"
-		if r.Verdict == "sat" {
-			if rep := replayModel(w, co.fr, o, r, *verif, *prop, *repo); rep != nil {
-				info["replay"] = rep
-				if rep.Confirmed {
-					suffix = ""
-				}
-			}
+		if len(baseline) > 0 && !inList(baseline, o.ID) && !*strict {
+			// stated but not part of the claim (never discharged robustly on the pinned tree)
+			notClaimed(co)
+			continue
 		}
-		rp := writeReplay(*verif, *prop, o.ID, info)
-		violations = append(violations, fmt.Sprintf("VIOLATION property=%s replay=%s%s", *prop, rp, suffix))
-		if *verbose {
-			fmt.Printf("  %-8s %s [%s] %s\n", r.Verdict, o.ID, o.PosStr, o.Text)
+		violation(co, "")
+	}
+	var pkeys []string
+	for k := range pending {
+		pkeys = append(pkeys, k)
+	}
+	sort.Strings(pkeys)
+	for _, k := range pkeys {
+		for _, co := range pending[k] {
+			if len(pending[k]) > baseUnclaimed[k] {
+				violation(co, fmt.Sprintf("the sites of this clause were renumbered by the change (%d on the pinned tree, %d now); %d of them fail now, %d were unclaimed on the pinned tree", baseCount[k], nowCount[k], len(pending[k]), baseUnclaimed[k]))
+			} else {
+				notClaimed(co)
+			}
 		}
 	}
 	for _, f := range fatals {
@@ -396,10 +479,22 @@ func cmdCheck(args []string) int {
 			fmt.Println("  fatal:", f)
 		}
 	}
+	missingKey := map[string]bool{}
 	for _, id := range baseline {
 		if !seenIDs[id] {
 			if _, isKnown := known[id]; isKnown {
 				continue
+			}
+			if haveShape {
+				// A renumbered clause is still checked at every site it has now.  A clause
+				// with no site left is an alarm only if it states something (ensures,
+				// invariant, decreases, lemma); a no-panic, precondition or frame class
+				// without sites has nothing left that could go wrong.
+				k := clauseKey(id)
+				if nowCount[k] > 0 || missingKey[k] || !statesSomething(k) {
+					continue
+				}
+				missingKey[k] = true
 			}
 			rp := writeReplay(*verif, *prop, "missing-"+id, map[string]interface{}{"obligation": id,
 				"explanation": "this obligation was discharged on the pinned tree and is no longer generated (function or clause removed/renamed)"})
@@ -584,4 +679,19 @@ func (e *Enc) coverObligations() []*Oblig {
 	out = append(out, &Oblig{ID: short + "/cover/body", Kind: "cover", Guard: "true", Formula: "true", Prefix: len(e.body), Negate: true,
 		Text: "assumptions of the whole body (callee postconditions, invariants) are consistent", Func: e.w.funcKey(e.root)})
 	return out
+}
+
+var siteOrdinal = regexp.MustCompile(`(@ret\d+|#\d+)$`)
+
+// clauseKey strips the site ordinal from an obligation ID: post#2@ret3 -> post#2,
+// nopanic/index#5 -> nopanic/index, pre#1:callee#2 -> pre#1:callee.
+func clauseKey(id string) string { return siteOrdinal.ReplaceAllString(id, "") }
+
+func statesSomething(key string) bool {
+	for _, m := range []string{"/post#", "/inv#", "/dec/", ".lemma/", "/frameinv/"} {
+		if strings.Contains(key, m) {
+			return true
+		}
+	}
+	return false
 }
